@@ -130,6 +130,33 @@ def rule_one_append(ctx, rep):
         if not vals_ok:
             why.append(f"`{unparse(bad_val)}` appends something other than the line or its substitution")
         rep.check("R-ONE-APPEND-PER-LINE", q, fn.loc(lp), ok, "one-append", "; ".join(why), appends=len(appends))
+        # one change per *edit*: a Change is recorded exactly when the substituted line differs from the original one
+        fa_l = FlowAnalysis(lp, body=lp.body)
+        change_calls = [c for c in walk_no_nested(lp) if isinstance(c, ast.Call) and (last_attr(c.func) or "") == "Change"]
+        sub_names = {t.id for a in walk_no_nested(lp) if isinstance(a, ast.Assign) and _is_substitution(a.value, line_var) for t in a.targets if isinstance(t, ast.Name)}
+
+        def differs(must) -> bool | None:
+            """True: line != substituted known; False: known equal; None: unknown"""
+            for pol, txt in must:
+                try:
+                    e = ast.parse(txt, mode="eval").body
+                except SyntaxError:
+                    continue
+                if isinstance(e, ast.Compare) and len(e.ops) == 1 and isinstance(e.ops[0], ast.Eq):
+                    sides = {unparse(e.left), unparse(e.comparators[0])}
+                    if line_var in sides and (sides - {line_var}) <= sub_names and len(sides) == 2:
+                        return not pol
+            return None
+
+        ok_c = bool(change_calls)
+        why_c = "no Change(...) recorded in the loop"
+        for c in change_calls:
+            st = fa_l.state_at(c)
+            for must, _may in (st.parts if st is not None else []):
+                if differs(must) is not True:
+                    ok_c = False
+                    why_c = f"`{unparse(c)[:50]}` is recorded on a path where the line is not known to differ from its substitution (a change entry for an unedited line)"
+        rep.check("R-ONE-APPEND-PER-LINE", q, fn.loc(change_calls[0]) if change_calls else fn.loc(lp), ok_c, "change-iff-edited", why_c)
         if "Sast" in q:
             # substitution only under line_matches_result
             subs = [c for c in walk_no_nested(lp) if _is_substitution(c, line_var)]
